@@ -209,6 +209,35 @@ theorem evalList_cons_or_ok (ρ : Nat → Outcome) (r : Rule) (r' : Rule) (rest 
       · exact absurd h.2 (by rw [hna.2]; simp)
       · exact h
 
+/-- … and what the array reports, one element at a time: an AND-type element that is OK hands over to the rest -/
+theorem evalList_cons_and_outcome (ρ : Nat → Outcome) (r r' : Rule) (rest : List Rule) (hr : r.isOr = false) (hok : (evalRule ρ r).isOk) :
+    (evalList ρ (r :: r' :: rest)).outcome = (evalList ρ (r' :: rest)).outcome := by
+  simp only [evalList]
+  have : stops r (evalRule ρ r) = false := (stops_and_iff r _ hr).mpr hok
+  rw [this]; rfl
+
+/-- an OR-type element that is not applicable hands over to the rest; otherwise it decides -/
+theorem evalList_cons_or_outcome_na (ρ : Nat → Outcome) (r r' : Rule) (rest : List Rule) (hr : r.isOr = true) (hna : (evalRule ρ r).isNa) :
+    (evalList ρ (r :: r' :: rest)).outcome = (evalList ρ (r' :: rest)).outcome := by
+  simp only [evalList]
+  have : stops r (evalRule ρ r) = false := (stops_or_iff r _ hr).mpr hna
+  rw [this]; rfl
+
+theorem evalList_cons_or_outcome_decides (ρ : Nat → Outcome) (r r' : Rule) (rest : List Rule) (hr : r.isOr = true) (hna : ¬ (evalRule ρ r).isNa) :
+    (evalList ρ (r :: r' :: rest)).outcome = (evalRule ρ r).outcome := by
+  simp only [evalList]
+  have : stops r (evalRule ρ r) = true := by
+    cases hs : stops r (evalRule ρ r) with
+    | true => rfl
+    | false => exact absurd ((stops_or_iff r _ hr).mp hs) hna
+  rw [this]; rfl
+
+theorem isNa_of_outcome (x : Run) (o : Outcome) (h : x.outcome = o) : x.isNa ↔ (o.status = 0 ∧ o.res = .na) := by
+  subst h; rfl
+
+theorem isOk_of_outcome (x : Run) (o : Outcome) (h : x.outcome = o) : x.isOk ↔ (o.status = 0 ∧ o.res = .ok) := by
+  subst h; rfl
+
 /-! ### only the rules listed in a tree are consulted -/
 
 mutual
